@@ -24,4 +24,18 @@ theorem post_guard_tied : Event.postGuard = (Gen.Event.postGuard, Gen.Event.post
 /-- `Stop` clears the table and sets the flag -/
 theorem stop_assigns_tied : Event.stopAssigns = Gen.Event.stopAssigns := by decide
 
+/-- **lock order**: in event.go as it is, every mutex acquisition (followed through the calls
+    between the file's functions) happens only while mutexes of strictly lower rank
+    `Dispatcher.mutex < Subscription.closeMu < Subscription.postMu` are held — so the
+    held-before relation is acyclic (`Props.C39.lock_order_acyclic`) and the atomic-step reading
+    of the critical sections in the interleaving model is justified. An edit that makes
+    `Unsubscribe` call `dispatcher.del` under `closeMu` (while `Stop` takes `closeMu` under
+    `dispatcher.mutex`) breaks this obligation. -/
+theorem lock_order_tied : Event.lockOrderOK Gen.Event.lockSkel = true := by decide
+
+/-- the edges actually present (documentation; changes when the locking changes) -/
+theorem lock_edges_tied : Event.lockEdges Gen.Event.lockSkel =
+    [("Dispatcher.mutex", "Subscription.closeMu"), ("Dispatcher.mutex", "Subscription.postMu"),
+     ("Subscription.closeMu", "Subscription.postMu")] := by decide
+
 end BytomModel.Ties.C39
